@@ -54,8 +54,22 @@ def run(c, a):
                            "cmds": seen[k]})
     if not scheds:
         raise Broken("no behaviours generated")
+    # constructed: a peer's shard set changes its members but not its size between two state pushes (swap), also via a third
+    # instance; the views must follow (clause mergeview)
+    def C(i, sh): return {"a": "Claim", "i": i, "sh": sh}
+    def R(i, sh): return {"a": "Release", "i": i, "sh": sh}
+    def S(i, j, v): return {"a": "Snapshot", "i": i, "j": j, "val": v}
+    def M(i, j, v): return {"a": "Merge", "i": i, "j": j, "val": v}
+    swaps = [
+        {"id": "swap-2", "inst": ["a", "b"], "late": [], "cmds": [C("a", 1), S("a", "b", 0), M("a", "b", 0), R("a", 1), C("a", 2), S("a", "b", 1), M("a", "b", 1)]},
+        {"id": "swap-3", "inst": ["a", "b", "c"], "late": [], "cmds": [C("b", 1), S("b", "a", 0), M("b", "a", 0), R("b", 1), C("c", 1), S("c", "a", 1), M("c", "a", 1),
+                                                                      C("b", 2), S("b", "a", 2), M("b", "a", 2)]},
+        {"id": "swap-grow", "inst": ["a", "b"], "late": [], "cmds": [C("a", 1), S("a", "b", 0), M("a", "b", 0), C("a", 2), S("a", "b", 1), M("a", "b", 1), R("a", 1),
+                                                                     S("a", "b", 2), M("a", "b", 2)]},
+    ]
     if len(scheds) > prof["limit"]:
         scheds = random.Random(c.seed).sample(scheds, prof["limit"])
+    scheds = swaps + scheds
     # routing decision table
     cases = []
 
@@ -124,6 +138,8 @@ def run(c, a):
         cause = "other"
         if clause == "leftowns":
             cause = "merge-after-leave"
+        elif clause == "mergeview":
+            cause = "merged-state-not-recorded"
         elif clause == "owner":
             owners = [n for n, v in e["view"].items() if x in v["local"]]
             cause = "no-owner-mutual-eviction" if not owners else "several-or-stale-owner"
